@@ -200,7 +200,7 @@ pub fn run(ctx: &Ctx) -> Report {
         if u == 0 { for gap in [253usize, 254, 255, 256, 257, 65532, 65533, 65534, 65535, 65536, 65537] { crate::mon::c06::epoch_probe(st, rng, gap); } }
     });
     let mut rep = Report::new(stats,
-        "for every shape (rows,cols) in [0,10]^2: random duplicate-free patterns (densities 0..1, forced empty rows/columns, explicit zeros, triplets shuffled or raw CSC with scrambled rows); vectors of distinct signed primes; multiply, transpose_multiply, transpose().multiply, adjoint identity <y,Ax>=<A^T y,x>, and all products again after scale(f) — exact over Rat; f64: integer data exact, general data within 4*nnz*u*sum|a||x| of a double-double reference. Plus edit histories on one live matrix (insert/overwrite/scale/transpose) with both products checked against the dense model after every step. Non-trivial: at least 2 cells; distinct = distinct (shape, entries, x) hashes");
+        "[round 6: plus 48 units of long shapes, rows and cols drawn from 11..48, same three case kinds] for every shape (rows,cols) in [0,10]^2: random duplicate-free patterns (densities 0..1, forced empty rows/columns, explicit zeros, triplets shuffled or raw CSC with scrambled rows); vectors of distinct signed primes; multiply, transpose_multiply, transpose().multiply, adjoint identity <y,Ax>=<A^T y,x>, and all products again after scale(f) — exact over Rat; f64: integer data exact, general data within 4*nnz*u*sum|a||x| of a double-double reference. Plus edit histories on one live matrix (insert/overwrite/scale/transpose) with both products checked against the dense model after every step. Non-trivial: at least 2 cells; distinct = distinct (shape, entries, x) hashes");
     rep.assumptions = vec!["dense reference = model built from the same entry map".into()];
     rep.min_nontrivial = 1000;
     rep.extra.set("exhaustive_parts", crate::json::J::Arr(vec![crate::json::J::s("shapes [0,10]^2")]));
